@@ -72,6 +72,9 @@ package mapset
 //@   ensures forall x T :: !has(s.m, x)
 
 //@ func FromItems
-//@   props C11
+//@   props C11 C03
 //@   results s
-//@   ensures s != nil
+//@   ensures s != nil && !isnil(s.m)
+//@   ensures forall x T :: has(s.m, x) == (exists j int :: 0 <= j && j < len(items) && items[j] == x)
+//@   loop 1
+//@     invariant h != nil && !isnil(h.m) && (forall x T :: has(h.m, x) == (exists j int :: 0 <= j && j < $i && items[j] == x))
